@@ -684,10 +684,17 @@ def lift2(I, f, v1, v2):
         return SNum(f(v1.real(), v2.real()), "float")
     if S1 and isinstance(v2, SNum):
         if v1.kind != "numpy.ndarray":
+            if v2.kind.startswith("np"):
+                # a list / tuple meeting a numpy scalar: numpy takes the operation over and answers with an
+                # ndarray (for * a numpy integer repeats the sequence and a numpy float raises TypeError - in
+                # every case not the operand's own container kind, which is all the callers' contracts look at)
+                return v1.map_term(I, lambda e: f(e, v2.real()), kind="numpy.ndarray")
             raise OutOfSubset("list/tuple operand reaches the arithmetic lambda")
         return v1.map_term(I, lambda e: f(e, v2.real()))
     if S2 and isinstance(v1, SNum):
         if v2.kind != "numpy.ndarray":
+            if v1.kind.startswith("np"):
+                return v2.map_term(I, lambda e: f(v1.real(), e), kind="numpy.ndarray")
             raise OutOfSubset("list/tuple operand reaches the arithmetic lambda")
         return v2.map_term(I, lambda e: f(v1.real(), e))
     if S1 and S2:
